@@ -13,8 +13,10 @@ open XmppModel.Close
 /-! ### Tie to the source -/
 
 /-- every transmit entry point tests `OutputStreamClosed` after taking the output lock and
-before touching the encoder; `Close` and `sendError` take the output lock and the state lock for
-their whole body; `closeSession` tests the bit, sets it, and only then writes the tag;
+before touching the encoder; `Close` and `sendError` take the output lock for their whole body
+and do not take the state lock themselves; `closeSession` takes the state lock, tests the bit,
+sets it, releases the state lock and only then writes the tag (hypothesis `heldDuringWrite =
+false` of `C10_close_does_not_block_reads`);
 `SetCloseDeadline` replaces the input context under the state lock and `Serve` reads it only
 through `inputErr`, which takes the read lock (the data race the race detector reported before
 the repair) -/
@@ -514,6 +516,186 @@ theorem C10_deadline_while_serving (s : Hist.St) (hr : s.serve = .running) :
     (step s (.setDeadline .past)).1.serve = .deadline ∧ (step s (.setDeadline .future)).1.serve = .running ∧
     (step s (.setDeadline .future)).1.ctxPast = false := by
   simp [step, hr, serveReturns]
+
+/-! ### The state mutex is not held across the write of the closing tag -/
+
+namespace Rw
+open RwLts
+
+@[simp] theorem setPc_same (pc : Nat → Pc) (i : Nat) (v : Pc) : setPc pc i v i = v := by simp [setPc]
+theorem setPc_other (pc : Nat → Pc) {i j : Nat} (v : Pc) (h : j ≠ i) : setPc pc i v j = pc j := by
+  simp [setPc, h]
+
+theorem inv_init : RwLts.Inv init :=
+  ⟨(by intro i h; simp [init] at h), (by simp [init]), (by intro _; rfl),
+   (by intro i h; simp [init] at h), (by intro i h; simp [init] at h)⟩
+
+theorem inv_step (kind : Nat → Kind) (w : Bool) (s s' : St) (i : Nat) (inv : RwLts.Inv s)
+    (h : step false kind w s i = some s') : RwLts.Inv s' := by
+  unfold step at h
+  cases hk : kind i <;> cases hp : s.pc i <;> rw [hk, hp] at h <;> simp only at h <;> try (cases h; done)
+  -- closer, idle
+  · split at h
+    · rename_i hfree
+      simp only [Option.some.injEq] at h; subst h
+      refine ⟨?_, inv.tags, inv.tagsOpen, ?_, ?_⟩
+      · intro j hj; have := inv.holder j hj
+        by_cases hji : j = i
+        · subst hji; rw [hp] at this; cases this
+        · simpa [setPc_other _ _ hji] using this
+      · intro j hj
+        by_cases hji : j = i
+        · subst hji; rfl
+        · simp only [setPc_other _ _ hji] at hj
+          have := inv.outHolder j hj; rw [hfree] at this; cases this
+      · intro j hj
+        by_cases hji : j = i
+        · subst hji; simp at hj
+        · simp only [setPc_other _ _ hji] at hj; exact inv.writingTags j hj
+    · cases h
+  -- closer, hasOut
+  · split at h
+    · simp only [Option.some.injEq] at h; subst h
+      have hout := inv.outHolder i (Or.inl hp)
+      refine ⟨?_, inv.tags, inv.tagsOpen, ?_, ?_⟩
+      · intro j hj; simp only [Option.some.injEq] at hj; subst hj; simp
+      · intro j hj
+        by_cases hji : j = i
+        · subst hji; exact hout
+        · simp only [setPc_other _ _ hji] at hj; exact inv.outHolder j hj
+      · intro j hj
+        by_cases hji : j = i
+        · subst hji; simp at hj
+        · simp only [setPc_other _ _ hji] at hj; exact inv.writingTags j hj
+    · cases h
+  -- closer, hasState
+  · have hout := inv.outHolder i (Or.inr (Or.inl hp))
+    have huniq : ∀ j, j ≠ i → ¬ (s.pc j = .hasOut ∨ s.pc j = .hasState ∨ s.pc j = .writing) := by
+      intro j hji hj; have := inv.outHolder j hj; rw [hout] at this; exact hji (Option.some.inj this).symm
+    by_cases hc : s.closed = true
+    · rw [if_pos hc] at h; simp only [Option.some.injEq] at h; subst h
+      refine ⟨(by intro j hj; cases hj), inv.tags, inv.tagsOpen, ?_, ?_⟩
+      · intro j hj
+        by_cases hji : j = i
+        · subst hji; simp at hj
+        · simp only [setPc_other _ _ hji] at hj; exact absurd hj (huniq j hji)
+      · intro j hj
+        by_cases hji : j = i
+        · subst hji; simp at hj
+        · simp only [setPc_other _ _ hji] at hj; exact absurd (Or.inr (Or.inr hj)) (huniq j hji)
+    · rw [if_neg hc] at h; simp only [Bool.false_eq_true, if_false, Option.some.injEq] at h; subst h
+      have hc' : s.closed = false := by simpa using hc
+      refine ⟨(by intro j hj; cases hj), inv.tags, (by intro h'; cases h'), ?_, ?_⟩
+      · intro j hj
+        by_cases hji : j = i
+        · subst hji; exact hout
+        · simp only [setPc_other _ _ hji] at hj; exact absurd hj (huniq j hji)
+      · intro j hj
+        by_cases hji : j = i
+        · subst hji; exact ⟨inv.tagsOpen hc', rfl⟩
+        · simp only [setPc_other _ _ hji] at hj; exact absurd (Or.inr (Or.inr hj)) (huniq j hji)
+  -- closer, writing
+  · split at h
+    · simp only [Option.some.injEq] at h; subst h
+      have hout := inv.outHolder i (Or.inr (Or.inr hp))
+      have huniq : ∀ j, j ≠ i → ¬ (s.pc j = .hasOut ∨ s.pc j = .hasState ∨ s.pc j = .writing) := by
+        intro j hji hj; have := inv.outHolder j hj; rw [hout] at this; exact hji (Option.some.inj this).symm
+      have hw := inv.writingTags i hp
+      refine ⟨(by intro j hj; cases hj), (by simp [hw.1]), (by intro h'; rw [hw.2] at h'; cases h'), ?_, ?_⟩
+      · intro j hj
+        by_cases hji : j = i
+        · subst hji; simp at hj
+        · simp only [setPc_other _ _ hji] at hj; exact absurd hj (huniq j hji)
+      · intro j hj
+        by_cases hji : j = i
+        · subst hji; simp at hj
+        · simp only [setPc_other _ _ hji] at hj; exact absurd (Or.inr (Or.inr hj)) (huniq j hji)
+    · cases h
+  -- reader, idle
+  · split at h
+    · simp only [Option.some.injEq] at h; subst h
+      refine ⟨?_, inv.tags, inv.tagsOpen, ?_, ?_⟩
+      · intro j hj; have := inv.holder j hj
+        by_cases hji : j = i
+        · subst hji; rw [hp] at this; cases this
+        · simpa [setPc_other _ _ hji] using this
+      · intro j hj
+        by_cases hji : j = i
+        · subst hji; simp at hj
+        · simp only [setPc_other _ _ hji] at hj; exact inv.outHolder j hj
+      · intro j hj
+        by_cases hji : j = i
+        · subst hji; simp at hj
+        · simp only [setPc_other _ _ hji] at hj; exact inv.writingTags j hj
+    · cases h
+
+theorem inv_run (kind : Nat → Kind) (sched : List (Nat × Bool)) : ∀ s, RwLts.Inv s → RwLts.Inv (run false kind s sched) := by
+  induction sched with
+  | nil => intro s h; exact h
+  | cons x xs ih =>
+    intro s h
+    obtain ⟨i, w⟩ := x
+    simp only [run]
+    cases hs : step false kind w s i with
+    | none => exact ih s h
+    | some s' => exact ih s' (inv_step kind w s s' i h hs)
+
+end Rw
+
+open RwLts in
+/-- **a Close that is blocked writing the closing tag does not block the session's read
+path**: for any goroutines and any schedule, whenever some closer is inside the connection write
+(for as long as the transport makes it wait), nobody holds the state mutex, so every reader's
+step (`lockReadCloser.Token`, `State()`) is enabled — `Serve` keeps reading, which on a
+synchronous transport is what lets the peer make progress and the write complete -/
+theorem C10_close_does_not_block_reads (kind : Nat → Kind) (sched : List (Nat × Bool)) (c r : Nat) (w : Bool)
+    (hc : (run false kind init sched).pc c = .writing)
+    (hr : kind r = .reader) (hri : (run false kind init sched).pc r = .idle) :
+    (run false kind init sched).stateLock = none ∧ (step false kind w (run false kind init sched) r).isSome = true := by
+  have inv := Rw.inv_run kind sched init Rw.inv_init
+  have hfree : (run false kind init sched).stateLock = none := by
+    cases hl : (run false kind init sched).stateLock with
+    | none => rfl
+    | some j =>
+      have hj := inv.holder j hl
+      have h1 := inv.outHolder j (Or.inr (Or.inl hj))
+      have h2 := inv.outHolder c (Or.inr (Or.inr hc))
+      rw [h1] at h2
+      have : j = c := Option.some.inj h2
+      subst this; rw [hc] at hj; cases hj
+  refine ⟨hfree, ?_⟩
+  simp [step, hr, hri, hfree]
+
+open RwLts in
+/-- the state mutex is only ever held by a closer whose next step needs nothing from the
+environment (test and set the bit), and the closing tag is handed to the connection at most
+once -/
+theorem C10_state_mutex_held_briefly (kind : Nat → Kind) (sched : List (Nat × Bool)) (i : Nat)
+    (hk : kind i = .closer) (h : (run false kind init sched).stateLock = some i) :
+    (step false kind false (run false kind init sched) i).isSome = true ∧ (run false kind init sched).tags ≤ 1 := by
+  have inv := Rw.inv_run kind sched init Rw.inv_init
+  have hp := inv.holder i h
+  refine ⟨?_, inv.tags⟩
+  simp only [step, hk, hp]
+  split <;> simp
+
+open RwLts in
+/-- negation witness for the lock shape before the repair (`stateMutex` held for the whole
+body of `Close`): with the write blocked, the reader's step is disabled — `Serve` cannot read,
+and on a synchronous transport whose peer is itself blocked writing nothing moves any more
+(the hang behind the repository's flaky `TestResponseToTimedOutIQ`) -/
+theorem C10_close_blocks_reads_old_shape :
+    let kind : Nat → Kind := fun i => if i = 0 then .closer else .reader
+    let s := run true kind init [(0, false), (0, false), (0, false), (0, false)]
+    s.pc 0 = .writing ∧ step true kind false s 1 = none ∧ step true kind false s 0 = none := by
+  decide
+
+open RwLts in
+example :
+    let kind : Nat → Kind := fun i => if i = 0 then .closer else .reader
+    let s := run false kind init [(0, false), (0, false), (0, false), (0, false)]
+    s.pc 0 = .writing ∧ (step false kind false s 1).isSome = true := by
+  decide
 
 /-! ### A failing connection write -/
 
